@@ -77,7 +77,7 @@ func c03Gates(c *ctx, pr *Protocol) {
 		if st == nil {
 			continue
 		}
-		for _, g := range core.WithClosures(st) {
+		for _, g := range unitFuncs(st) {
 			for _, cs := range core.Calls(g) {
 				if strings.HasSuffix(core.CalleeName(cs), "vss.Share).Verify") {
 					rd = r
@@ -91,7 +91,7 @@ func c03Gates(c *ctx, pr *Protocol) {
 	}
 	st := rd.Fns["Start"]
 	nSucc := 0
-	for _, g := range core.WithClosures(st) {
+	for _, g := range unitFuncs(st) {
 		if g == st {
 			continue
 		}
